@@ -110,7 +110,8 @@ def _resolve_helper(meths: T.Dict[str, T.Any], current: str, call: ast.AST, clos
     params = params[implicit:]
     mapping: T.Dict[str, ast.AST] = {}
     if first:
-        mapping[first[0]] = ast.Name(id='self', ctx=ast.Load())      # self / cls of the helper read through the caller's self
+        # self / cls of the helper is the receiver the caller used (`cls._h(x)` inside a classmethod keeps reading `cls`)
+        mapping[first[0]] = ast.Name(id=rk if rk in ('self', 'cls') else 'self', ctx=ast.Load())
     if len(call.args) > len(params):
         return None
     for p, v in zip(params, call.args):
@@ -182,14 +183,14 @@ def inline_helpers(mod: Module, cls: str, fn: T.Any, depth: int = 3) -> T.Any:
                         return ast.copy_location(_subst(b[0].value, h.mapping, {}), c)
                 return c
 
-        def splice(stmts: T.List[ast.stmt]) -> T.List[ast.stmt]:
+        def splice(stmts: T.List[ast.stmt], loop_body: bool = False) -> T.List[ast.stmt]:
             nonlocal changed
             out: T.List[ast.stmt] = []
             for st in stmts:
                 for field in ('body', 'orelse', 'finalbody'):
                     sub = getattr(st, field, None)
                     if isinstance(sub, list) and sub and isinstance(sub[0], ast.stmt):
-                        setattr(st, field, splice(sub))
+                        setattr(st, field, splice(sub, field == 'body' and isinstance(st, (ast.For, ast.AsyncFor, ast.While))))
                 for hd in getattr(st, 'handlers', []) or []:
                     hd.body = splice(hd.body)
                 if isinstance(st, ast.Return) and st.value is not None:
@@ -218,6 +219,21 @@ def inline_helpers(mod: Module, cls: str, fn: T.Any, depth: int = 3) -> T.Any:
                     rename = {n: f'{n}__{h.fn.name.strip("_")}{tag}' for n in locs}
                     nested_exit = [n for x in b[:-1] for n in ast.walk(x) if isinstance(n, (ast.Return, ast.Yield, ast.YieldFrom))]
                     last = b[-1] if b else None
+                    if isinstance(st, ast.Expr) and nested_exit and loop_body and st is stmts[-1] \
+                            and all(isinstance(n, ast.Return) and n.value is None for n in nested_exit) \
+                            and not (isinstance(last, ast.Return) and last.value is not None) \
+                            and not any(isinstance(x, (ast.For, ast.AsyncFor, ast.While)) and any(isinstance(n, ast.Return) for n in ast.walk(x)) for x in b):
+                        # E1: a loop body extracted into a helper - its early `return`s were the loop's `continue`s
+                        class R(ast.NodeTransformer):
+                            def visit_Return(self, n: ast.Return) -> ast.AST:
+                                return ast.copy_location(ast.Continue(), n)
+
+                            def visit_FunctionDef(self, n: ast.FunctionDef) -> ast.AST:
+                                return n
+                        b2 = [R().visit(copy.deepcopy(x)) for x in b]
+                        out.extend(T.cast(ast.stmt, _subst(x, h.mapping, rename)) for x in b2)
+                        changed = True
+                        continue
                     if isinstance(st, ast.Expr):
                         if isinstance(last, ast.Return) and last.value is None:
                             b, last = b[:-1], None
@@ -386,6 +402,13 @@ class _Expr(ast.NodeTransformer):
         if len(e.ops) != 1:
             return e
         op, l, r = e.ops[0], e.left, e.comparators[0]
+        # a regex match object is truthy exactly when it is not None
+        if isinstance(op, (ast.Is, ast.IsNot, ast.Eq, ast.NotEq)) and isinstance(r, ast.Constant) and r.value is None and isinstance(l, ast.Call) \
+                and isinstance(l.func, ast.Attribute) and l.func.attr in ('search', 'match', 'fullmatch'):
+            inner_m: ast.expr = ast.UnaryOp(op=ast.Not(), operand=l)
+            if isinstance(op, (ast.IsNot, ast.NotEq)):
+                inner_m = ast.UnaryOp(op=ast.Not(), operand=inner_m)
+            return ast.copy_location(inner_m, e)
         # C2: enum members compare by identity
         if isinstance(op, (ast.Eq, ast.NotEq)) and (_is_enum_member(l) or _is_enum_member(r)):
             if _is_enum_member(l) and not _is_enum_member(r):
